@@ -72,8 +72,7 @@ class _TabulationCutoff(object):
       cutoff = (nr-1)*dr      
     elif cutoff and dr:
       # Set nr
-      nr = (cutoff/dr) + 1
-      nr = int(nr)
+      nr = int(round(cutoff/dr)) + 1
     elif not dr is None:
       raise ConfigParserException("'{dr}' cannot be specified without either '{nr}' or '{cutoff}' in [Tabulation] section of potential definition.".format(**self._template_dict))
 
